@@ -21,9 +21,17 @@ def canon_lines(lines, drop_wakes=True, sort_wakes=False):
             out.extend(sorted(set(wakes)))
             wakes.clear()
 
+    dropping = None
     for l in lines:
+        if l.startswith("op "):
+            t = l.split()
+            dropping = None
+            if len(t) >= 3 and t[1] == "drop-call":
+                dropping = "obs wake c" + t[2]
+            elif len(t) >= 3 and t[1] == "drop-exec":
+                dropping = "obs wake r" + t[2]
         if l.startswith("obs wake "):
-            if drop_wakes:
+            if drop_wakes or l.strip() == dropping:     # a wake of the future being dropped is moot
                 continue
             if sort_wakes:
                 wakes.append(l)
